@@ -133,12 +133,20 @@ def check(env, rep, tier):
                     if y.is_const():
                         sx = x.single()
                         if sx is not None:
-                            bm = bitprov.resolve_bits(I, s, IntV(x, (16, False)), 32)
-                            fm = bitprov.field_of(bm, src) if src else {}
-                            truth_on_one = (c[1] == "Eq") == (y.c == 1)
-                            if neg:
-                                truth_on_one = not truth_on_one
-                            okm = fm == {0: 3} and y.c in (0, 1) and truth_on_one and all(b == 0 for i, b in enumerate(bm) if i != 0)
+                            bm = bitprov.resolve_bits(I, s, IntV(x, (32, False)), 32)
+                            pos = [i for i, b in enumerate(bm) if b != 0]
+                            if len(pos) == 1 and src and bm[pos[0]] == ("b", src, 3):
+                                j = pos[0]
+                                # the value is either 0 or 2^j
+                                if y.c == 0:
+                                    truth_on_set = c[1] == "Ne"
+                                elif y.c == (1 << j):
+                                    truth_on_set = c[1] == "Eq"
+                                else:
+                                    truth_on_set = None
+                                if truth_on_set is not None and neg:
+                                    truth_on_set = not truth_on_set
+                                okm = truth_on_set is True
             elif isinstance(more, IntV):
                 bm = bitprov.resolve_bits(I, s, more, 1)
                 okm = src is not None and bm is not None and bm[0] == ("b", src, 3)
